@@ -873,8 +873,9 @@ Qed.
    through ANOTHER handle runs between the seek and the truncate; the new handle keeps offset 4 and
    a one-byte Write through it lands there.  Had the other Write come first the offset would be 8,
    had it come second its 8 bytes would survive.  This is the history recorded on the Go side by
-   the lock-aware cooperative scheduler (known finding, corpus/C04/openfile-append-trunc-write.case):
-   in the code both steps lie in ONE section of mu, which a handle operation does not take ---- *)
+   the lock-aware cooperative scheduler BEFORE the repair (corpus/C04/openfile-append-trunc-write.case,
+   now a regression case): both steps lay in ONE section of mu, which a handle operation does not
+   take, but in two holds of the file's mutex (lin_openfile_finish_one_hold = 0) ---- *)
 Definition w_apptr : Z := Z.lor (Z.lor o_rdwr o_append) o_trunc.
 Definition w10_setup : list lop :=
   [(Some 1%nat, OpenFile w_f (Z.lor o_rdwr o_create) 420); (None, HWrite 1 [97; 98; 99; 100]%N); (None, HClose 1);
